@@ -161,6 +161,10 @@ def fault_rows(behs):
     for b in behs:
         sc = scripts_of(b).get("a1", [])
         items = [{"k": f["k"], "at": f["at"]} for f in b["fseq"]]
+        for n, it in enumerate(items):          # nothing is injected after Close
+            if it["k"] == "close":
+                items = items[:n + 1]
+                break
         if not items or any(i["at"] not in SUPPORTED_AT for i in items):
             continue
         if b["stuck"] or b["lostresume"]:
@@ -217,12 +221,19 @@ def run_faults(run, vf, prop):
         if r["status"] == "violation":
             r["status"] = "ok"
             r["key"] = r["detail"] = None
+        if r["status"] == "inconclusive" and "could not be driven" in (r.get("detail") or ""):
+            run.notes.append("undriven: %s" % (r.get("detail") or "")[:200])
+            r["status"], r["class"], r["nontrivial"] = "ok", "", False
+            run.cov["undriven"] = run.cov.get("undriven", 0) + 1
+            tr = None
         for v in mine:
             run.violation(v["key"], v["detail"], case={"script": c.get("script"), "items": c.get("items")})
         if tr and r["status"] == "ok":
             recs = normalize_life(tr, len(c.get("script", [])))
             traces.append((r["case"], "\n".join(json.dumps(x) for x in recs) + "\n", len(recs)))
     run.absorb(results)
+    if run.cov.get("undriven", 0) * 3 > len(cases):
+        raise vf.Inconclusive("%d of %d fault scenarios could not be driven" % (run.cov["undriven"], len(cases)))
     # one TLC run per scenario (in parallel): a trace the specification cannot explain must not hide the others
     def validate(t):
         cid, text, n = t
